@@ -1,6 +1,6 @@
 (** C01 - every sample in the file resolves to exactly the bytes submitted.
     (Layout layer; the end-to-end composition through the reader is in progress, see DESIGN.md.) *)
-From Coq Require Import Sorting.Sorted Sorting.Permutation.
+From Coq Require Export Sorting.Sorted Sorting.Permutation.
 From Muxide Require Export Model.Base Model.Boxes Model.Writer Model.Api Spec.Layout
   Proofs.LayoutProofs Proofs.TimingProofs.
 Open Scope N_scope.
